@@ -44,6 +44,7 @@ type vector struct {
 	// func
 	F    shape  `json:"f"`
 	Form string `json:"form"` // spelling of the call-like values: short long longva bitcast asm tail addrspace
+	Names string `json:"names"` // naming of the named definitions: alpha (p3, b4, ..) | numeral ("0", "1", "00", "42", ..)
 	Ids  []int  `json:"ids"` // LLVM numbering in flat order: params, then per block label, insts, term; -1 = none
 	// mod
 	Src     []srcEnt `json:"src"`
@@ -55,6 +56,9 @@ func (v vector) key() string {
 	var sb strings.Builder
 	if v.Kind == "mod" {
 		sb.WriteString("mod:")
+		if v.Names == "numeral" {
+			sb.WriteString("numeral:")
+		}
 		for _, e := range v.Src {
 			fmt.Fprintf(&sb, "%s%q,", e.Kind, e.Name)
 		}
@@ -63,6 +67,9 @@ func (v vector) key() string {
 	sb.WriteString("func:")
 	if v.Form != "" && v.Form != "short" {
 		sb.WriteString(v.Form + ":")
+	}
+	if v.Names == "numeral" {
+		sb.WriteString("numeral:")
 	}
 	fmt.Fprintf(&sb, "%q", v.F.Params)
 	for _, b := range v.F.Blocks {
@@ -111,13 +118,37 @@ type plan struct {
 	exit     *pblock
 	uses     *pblock
 	describe string
+	numeral  bool    // named definitions are called "0", "1", "00", ...
+	baBlocks []*pblock // blocks whose address is taken by the companion globals and the companion function
 }
 
 func (it *item) ident() string {
 	if it.name != "" {
-		return "%" + it.name
+		return "%" + quoteName(it.name)
 	}
 	return "%" + strconv.Itoa(it.num)
+}
+
+// quoteName spells a name as LLVM requires: a name made of digits only must be
+// quoted (%"0" is a name, %0 a number).
+func quoteName(name string) string {
+	for _, c := range name {
+		if c < '0' || c > '9' {
+			return name
+		}
+	}
+	return `"` + name + `"`
+}
+
+// numerals are names that look like numbers; the first ones collide with the
+// numbers unnamed values get.
+var numerals = []string{"0", "1", "00", "42", "2", "01", "3", "007", "10", "4", "5", "000"}
+
+func numeralName(idx int) string {
+	if idx < len(numerals) {
+		return numerals[idx]
+	}
+	return strconv.Itoa(100 + idx)
 }
 
 func (it *item) describeKind() string {
@@ -138,12 +169,18 @@ func makePlan(fname string, v vector) *plan {
 	pl := &plan{fname: fname, describe: v.key()}
 	k := 0
 	next := func() int { n := v.Ids[k]; k++; return n }
+	// a named instruction or terminator result keeps a letter name when something has to refer to
+	// it: the parser cannot resolve a reference to an instruction called %"42" (C11 known finding)
 	cname := func(abstract string, idx int) string {
 		if abstract == "" {
 			return ""
 		}
+		if v.Names == "numeral" && abstract != "t" {
+			return numeralName(idx)
+		}
 		return abstract + strconv.Itoa(idx)
 	}
+	pl.numeral = v.Names == "numeral"
 	for range v.F.Params {
 		pl.params = append(pl.params, &item{kind: "param", res: "value"})
 	}
@@ -232,11 +269,11 @@ func makePlan(fname string, v vector) *plan {
 	}
 	for bi := 0; bi < pl.nshape; bi++ {
 		for _, it := range pl.blocks[bi].insts {
-			if it.res == "value" {
+			if it.res == "value" && !(pl.numeral && it.name != "") {
 				use(it)
 			}
 		}
-		if t := pl.blocks[bi].term; t.res == "value" && t.op != "catchswitch" {
+		if t := pl.blocks[bi].term; t.res == "value" && t.op != "catchswitch" && !(pl.numeral && t.name != "") {
 			use(t)
 		}
 	}
@@ -249,6 +286,8 @@ func makePlan(fname string, v vector) *plan {
 	}
 	pl.uses.term = sw
 	pl.blocks = append(pl.blocks, pl.uses)
+	// blocks whose address is taken from outside the function (not the entry block, no EH pad)
+	pl.baBlocks = append(append([]*pblock{}, sw.cases...), pl.exit)
 	// flat walk order
 	add := func(it *item) { it.pos = len(pl.flat) + 1; pl.flat = append(pl.flat, it) }
 	for _, p := range pl.params {
@@ -283,7 +322,7 @@ func explicitIn(mode int, it *item) bool {
 	return false
 }
 
-const prelude = "@sink = global i32 0\n\ndeclare i32 @__gxx_personality_v0(...)\n\ndeclare void @vf()\n\ndeclare i32 @vi()\n\n" +
+const prelude = "@sink = global i32 0\n\n@bsink = global i8* null\n\ndeclare i32 @__gxx_personality_v0(...)\n\ndeclare void @vf()\n\ndeclare i32 @vi()\n\n" +
 	"declare void @vfa(i32)\n\ndeclare i32 @via(i32)\n\ndeclare void @vfv(...)\n\ndeclare i32 @viv(...)\n\n" +
 	"declare void @vf1() addrspace(1)\n\ndeclare i32 @vi1() addrspace(1)\n\n"
 
@@ -394,6 +433,17 @@ func opText(it *item) string {
 // render writes the function as LLVM assembly in the given numbering mode.
 func (pl *plan) render(mode int) string {
 	var sb strings.Builder
+	// the companion function comes first: it takes the address of blocks of a function defined later
+	sb.WriteString("define void @u." + pl.fname + "() {\n0:\n")
+	for _, b := range pl.baBlocks {
+		sb.WriteString("\tstore i8* blockaddress(@" + pl.fname + ", " + b.label.ident() + "), i8** @bsink\n")
+	}
+	sb.WriteString("\tret void\n}\n\n")
+	// companion globals initialised with block addresses; they too precede the function: LLVM
+	// cannot take the address of a numbered label after the function has been defined
+	for j, b := range pl.baBlocks {
+		fmt.Fprintf(&sb, "@ba.%s.%d = global i8* blockaddress(@%s, %s)\n\n", pl.fname, j, pl.fname, b.label.ident())
+	}
 	sb.WriteString("define void @" + pl.fname + "(")
 	allExplicit := true
 	for i, p := range pl.params {
@@ -439,7 +489,7 @@ func (pl *plan) render(mode int) string {
 
 type env struct {
 	m            *ir.Module
-	sink         *ir.Global
+	sink, bsink  *ir.Global
 	pers, vf, vi *ir.Func
 	asmV, asmI   *ir.InlineAsm
 	// callees of the other spellings: with a parameter, variadic, in address space 1
@@ -449,6 +499,7 @@ type env struct {
 func newEnv() *env {
 	e := &env{m: ir.NewModule()}
 	e.sink = e.m.NewGlobalDef("sink", constant.NewInt(types.I32, 0))
+	e.bsink = e.m.NewGlobalDef("bsink", constant.NewNull(types.I8Ptr))
 	e.pers = e.m.NewFunc("__gxx_personality_v0", types.I32)
 	e.pers.Sig.Variadic = true
 	e.vf = e.m.NewFunc("vf", types.Void)
@@ -515,6 +566,7 @@ func (pl *plan) build(e *env) (*ir.Func, objects) {
 		obj[p] = ip
 		params = append(params, ip)
 	}
+	u := e.m.NewFunc("u."+pl.fname, types.Void)
 	f := e.m.NewFunc(pl.fname, types.Void, params...)
 	f.Personality = e.pers
 	blocks := map[*pblock]*ir.Block{}
@@ -626,7 +678,73 @@ func (pl *plan) build(e *env) (*ir.Func, objects) {
 			}
 		}
 	}
+	// companions: block addresses taken from an earlier function and from global initialisers
+	ub := u.NewBlock("")
+	for j, b := range pl.baBlocks {
+		ub.NewStore(constant.NewBlockAddress(f, blocks[b]), e.bsink)
+		e.m.NewGlobalDef(fmt.Sprintf("ba.%s.%d", pl.fname, j), constant.NewBlockAddress(f, blocks[b]))
+	}
+	ub.NewRet(nil)
 	return f, obj
+}
+
+// checkCompanions verifies that the block addresses of the companion function and
+// globals of a parsed module are bound to the blocks at those positions.
+func (pl *plan) checkCompanions(m *ir.Module, f *ir.Func, obj objects) string {
+	isBA := func(v interface{}, b *pblock) bool {
+		ba, ok := v.(*constant.BlockAddress)
+		return ok && ba.Func == constant.Constant(f) && ba.Block == obj[b.label]
+	}
+	for _, g := range m.Globals {
+		for j, b := range pl.baBlocks {
+			if g.GlobalName == fmt.Sprintf("ba.%s.%d", pl.fname, j) && !isBA(g.Init, b) {
+				return fmt.Sprintf("initialiser of @%s is not the address of block %s", g.GlobalName, b.label.ident())
+			}
+		}
+	}
+	for _, u := range m.Funcs {
+		if u.GlobalName != "u."+pl.fname {
+			continue
+		}
+		if len(u.Blocks) != 1 || len(u.Blocks[0].Insts) != len(pl.baBlocks) {
+			return "companion function has another structure"
+		}
+		for j, b := range pl.baBlocks {
+			st, ok := u.Blocks[0].Insts[j].(*ir.InstStore)
+			if !ok || !isBA(st.Src, b) {
+				return fmt.Sprintf("blockaddress %d of @%s is not the address of block %s", j, u.GlobalName, b.label.ident())
+			}
+		}
+		return ""
+	}
+	return "companion function missing"
+}
+
+// chunk collects everything printed text says about a plan: the companion function, the
+// function itself and the companion globals.
+func (pl *plan) chunk(text string, per map[string]string) string {
+	var sb strings.Builder
+	sb.WriteString(per["u."+pl.fname])
+	sb.WriteString(per[pl.fname])
+	sb.WriteString(pl.globalLines(text))
+	return sb.String()
+}
+
+// standalone orders the same pieces so that llvm-as accepts them on their own (the companion
+// globals before the function whose numbered labels they name).
+func (pl *plan) standalone(text string, per map[string]string) string {
+	return pl.globalLines(text) + "\n" + per["u."+pl.fname] + "\n" + per[pl.fname]
+}
+
+func (pl *plan) globalLines(text string) string {
+	var sb strings.Builder
+	prefix := "@ba." + pl.fname + "."
+	for _, line := range strings.Split(text, "\n") {
+		if strings.HasPrefix(line, prefix) {
+			sb.WriteString(line + "\n")
+		}
+	}
+	return sb.String()
 }
 
 // locate maps the items of a plan to the objects of a parsed function by position.
@@ -731,7 +849,7 @@ func (pl *plan) checkBinding(obj objects) (badKind string, detail string) {
 
 // --- token streams ---------------------------------------------------------------
 
-var reTok = regexp.MustCompile(`(?m)^[\w.]+:|[@%][\w.]+`)
+var reTok = regexp.MustCompile(`(?m)^[\w.]+:|^"[^"\n]*":|[@%]"[^"\n]*"|[@%][\w.]+`)
 
 // tokens returns every label and every %/@ identifier of text, in order;
 // labels are rendered with a leading %.
